@@ -343,7 +343,7 @@ def run(ctx):
         return
     if ctx.shard[0] == 0:
         returned_object_kinds(ctx)
-    forced = ["sibling-bindings", "sibling-bindings", "sibling-bindings", "compose", "compose", "nested-entry", "nested-entry", "nested-entry", "dotted-keys", "dotted-keys", "dotted-keys", "rewait", "rewait", "rewait", "signal-loop", "signal-loop"] if ctx.shard[0] == 0 and not os.environ.get("HGMON_ONLY_FAMILY") else []
+    forced = ["sibling-bindings", "sibling-bindings", "sibling-bindings", "compose", "compose", "nested-entry", "nested-entry", "nested-entry", "dotted-keys", "dotted-keys", "dotted-keys", "rewait", "rewait", "rewait", "signal-loop", "signal-loop", "lateclosed", "lateclosed", "lateclosed", "lateclosed", "early-shared", "early-shared"] if ctx.shard[0] == 0 and not os.environ.get("HGMON_ONLY_FAMILY") else []
     for i in range(n):
         fam = families.pick(ctx.rng, [forced[i]]) if i < len(forced) else families.pick(ctx.rng, ["dag", "dag-fallback", "gated", "loop", "waitdag", "waitdag", "rewait", "lateclosed", "nested-entry", "early-shared", "compose", "compose", "sibling-bindings"] if not os.environ.get("HGMON_ONLY_FAMILY") else [os.environ["HGMON_ONLY_FAMILY"]])
         spec, inputs, kw = fam["spec"], fam["inputs"], fam.get("kw", {})
